@@ -57,3 +57,8 @@ Theorem C11_stream_methods_lock_first :
      "fileSize"; "setFileSize"; "setBufferSize"; "dropOldData"; "defaultLogContainerSize"; "setDefaultLogContainerSize"]%string = true.
 Proof. exact all_locked. Qed.
 Print Assumptions C11_stream_methods_lock_first.
+
+(* open() starts the workers last: no statement of the application thread inside open() runs concurrently with them *)
+Theorem C11_open_spawns_last : nothing_after_spawn skel_open = true /\ spawns skel_open = 4%nat.
+Proof. exact open_spawns_last. Qed.
+Print Assumptions C11_open_spawns_last.
